@@ -338,7 +338,7 @@ def _line_field_writes(F, fn, field):
     return out
 
 
-def _line_provenance(F, fn, operand, fname):
+def _line_provenance(F, fn, operand, fname, depth=0):
     c = operand.get("const")
     if c is not None:
         return True, ""
@@ -364,6 +364,20 @@ def _line_provenance(F, fn, operand, fname):
             return False, "is built from an unexpected aggregate"
         if d[0] == "param" and p and p[-1] == fname:
             continue  # copied from another LexResult
+        if d[0] == "call" and p and isinstance(p[0], str) and p[0].isdigit() and depth < 3:
+            # a component of the tuple a private scanning helper returns: judged inside the helper
+            h = F.fn(fn.term(d[1])["callee"].get("resolved") or callee_def(fn.term(d[1])) or "")
+            if h is not None and h.mir and in_lexer(h) and h.kind != "closure":
+                rets = [st2 for bi2, si2, st2 in h.assigns() if st2["pl"]["l"] == 0 and not st2["pl"]["p"] and st2["rv"].get("agg") == "tuple" and int(p[0]) < len(st2["rv"]["ops"])]
+                if rets:
+                    bad = None
+                    for st2 in rets:
+                        ok2, why2 = _line_provenance(F, h, st2["rv"]["ops"][int(p[0])], fname, depth + 1)
+                        if not ok2:
+                            bad = why2
+                    if bad is None:
+                        continue
+                    return False, bad
         if d[0] == "unknown" or d[0] == "op" or d[0] == "call" or d[0] == "param":
             # a local: all its writes must be literal initialisations or '\n'-guarded updates inside a scanning closure
             l = op_local(operand)
